@@ -440,6 +440,7 @@ type special struct {
 	InputClass string
 	Conc       bool
 	DeadlineMS int
+	Call       bool // also risor.Call the functions it declares
 }
 
 func specialScripts(thorough bool) []special {
@@ -516,6 +517,21 @@ func specialScripts(thorough bool) []special {
 	add("threads-buffer-write", shared, `b := buffer(); func w() { for i := range 100000 { b.write("x") } }; t1 := spawn(w); t2 := spawn(w); t1.wait(); t2.wait(); 1`)
 	add("threads-global-assign", shared, `g := 0; func w() { for i := range 200000 { g = g + 1 } }; t1 := spawn(w); t2 := spawn(w); t1.wait(); t2.wait(); g > 0`)
 	add("threads-map-delete", shared, `m := {}; func w() { for i := range 100000 { m["k"] = i; delete(m, "k") } }; t1 := spawn(w); t2 := spawn(w); t1.wait(); t2.wait(); 1`)
+	// functions that are only declared: risor.Call invokes them (first one without, second with one argument)
+	call := func(name, icls, src string) {
+		out = append(out, special{Name: name, Src: src, InputClass: icls, Call: true})
+	}
+	call("call-unset-global", "plain-data", `if false { func f() { return 1 } }`)
+	call("call-unset-global-expr", "plain-data", `v := true || func f() { return 1 }`)
+	call("call-recursion", rec, `func f() { return f() }`)
+	call("call-recursion-callback", rec, `func f() { return [1].map(func(x) { return f() }) }`)
+	call("call-operand-overflow", "stack-filling", `func f() { return g(0) }; func g(n) { return [n, [n, [n, [n, [n, [n, [n, [n, g(n + 1)]]]]]]]] }`)
+	call("call-error", "plain-data", `func f() { error("boom") }; func g(x) { return x.nope }`)
+	call("call-cyclic-result", "cyclic-data", `func f() { l := [1]; l.append(l); return len(l) }; func g(x) { m := {"k": x}; m["m"] = m; return len(m) }`)
+	call("call-closure-deep", "plain-data", `func f() { a := 1; return func() { return func() { return a }() }() }; func g(x) { return func() { return func() { return func() { return x } } }()()() }`)
+	call("call-arity", "plain-data", `func f(a, b, c) { return a }; func g() { return 1 }`)
+	call("call-defer-panic", rec, `func f() { defer func() { f() }(); return 1 }`)
+	call("call-spawn", "threads", `func f() { return spawn(func() { return f }).wait() }; func g(x) { t := spawn(g, x); return 1 }`)
 	for i := range out {
 		out[i].Conc = true
 		out[i].DeadlineMS = 1500
